@@ -1,6 +1,10 @@
 //! amv — runtime monitors for automerge (see /verif/DESIGN.md).
 #![allow(dead_code)]
 mod fw;
+mod obs;
+mod gen;
+mod refint;
+mod util;
 mod checks;
 
 use fw::*;
@@ -57,6 +61,17 @@ fn main() {
             limit_address_space(6);
             let cx = run_worker(check.as_ref(), &a);
             std::fs::write(&a.out, serde_json::to_string(&ctx_to_json(&cx)).unwrap()).unwrap();
+        }
+        "case" => {
+            // amv case <ID> <case> [--seed N] [--tier T]: re-run one case verbosely
+            let id = args[2].clone();
+            let case: u64 = args[3].parse().unwrap();
+            let seed: u64 = arg_val(&args, "--seed").and_then(|s| s.parse().ok()).unwrap_or(1);
+            let tier = arg_val(&args, "--tier").unwrap_or_else(|| "quick".into());
+            let path = out_dir().join("case.tmp.json");
+            std::fs::write(&path, serde_json::json!({"property": id, "tier": tier, "seed": seed, "case": case}).to_string()).unwrap();
+            let check = reg.iter().find(|c| c.id() == id).expect("unknown check");
+            std::process::exit(replay(check.as_ref(), &path));
         }
         "replay" => {
             let path = PathBuf::from(&args[2]);
